@@ -338,6 +338,17 @@ def in_window(cert_der_bytes):
 X509_NAMES = ["quoting_enclave", "platform_ca", "ca2"]     # leaf first
 
 
+def _shifted(report_data, shift):
+    """The 64 bytes of report data with the digest moved away from the front: shift = [n, fill]
+    puts n bytes (zeros, or 0x5a) before it; nothing is moved for None. The field keeps its
+    size; the digest is still in it, only not where the binding says."""
+    if not shift:
+        return report_data
+    n, fill = shift
+    pad = bytes(n) if fill == "zero" else b"\x5a" * n
+    return (pad + report_data)[:64]
+
+
 def _grind(data, shape, prefix):
     """data followed by a two-byte counter chosen so that SHA-256(prefix + data) has the given
     shape ('ends-00', 'starts-00', 'ends-0000'); data itself when no shape is asked for."""
@@ -398,10 +409,12 @@ class V2Cert:
         att_pub = pub_raw64(self.keys["attestation"])
         self.auth = _grind(s["auth"], s.get("grind_auth"), att_pub)
         self.custom = _grind(s["custom"], s.get("grind_custom"), b"")
-        rd_a = hashlib.sha256(att_pub + self.auth).digest() + s.get("rd_tail_a", bytes(32))
+        rd_a = _shifted(hashlib.sha256(att_pub + self.auth).digest() +
+                        s.get("rd_tail_a", bytes(32)), s.get("rd_shift_a"))
         self.qe_rb_fields = default_rb(b"qe" + s.get("seed", b""), rd_a)
         self.qe_rb = report_body(self.qe_rb_fields)
-        rd_q = hashlib.sha256(self.custom).digest() + s.get("rd_tail_q", bytes(32))
+        rd_q = _shifted(hashlib.sha256(self.custom).digest() + s.get("rd_tail_q", bytes(32)),
+                        s.get("rd_shift_q"))
         self.q_rb_fields = default_rb(b"quote" + s.get("seed", b""), rd_q)
         sd = hashlib.sha256(b"hdr" + s.get("seed", b"")).digest() * 2
         self.q_hdr = {"version": 3, "sign_type": 2, "tee_type": 0,
